@@ -135,6 +135,8 @@ struct Context {
     reg_count: VReg,
     program: Mir,
     default_args_map: BTreeMap<FunctionId, Vec<DefaultArgData>>,
+    /// State cells of the default-argument getters called since the enclosing call drained them.
+    default_arg_states: Vec<StateSkeleton>,
     /// Map from monomorphization key to the function ID of the specialized function
     monomorph_map: BTreeMap<MonomorphKey, FunctionId>,
     data: Vec<ContextData>,
@@ -199,6 +201,7 @@ impl Context {
             fn_label: None,
             anonymous_fncount: 0,
             default_args_map: BTreeMap::new(),
+            default_arg_states: Vec::new(),
             monomorph_map: BTreeMap::new(),
             data: vec![ContextData::default()],
             data_i: 0,
@@ -870,7 +873,8 @@ impl Context {
             .iter()
             .filter_map(|(s, ty, default)| {
                 default.map(|d| {
-                    // we assume default argument expression does not contain stateful function call
+                    // the getter publishes its own state layout; a call of it is listed by the
+                    // call site that uses the default (get_default_arg_call)
                     let (fid, _state) = self.new_default_args_getter(c_idx, *s, d);
                     DefaultArgData {
                         name: *s,
@@ -916,6 +920,19 @@ impl Context {
             vec![],
             |ctx, c_idx| {
                 let (v, ty, states) = ctx.eval_expr(e);
+                // A default value may be stateful (`x = counter()`): the getter owns those
+                // cells like any other function, and leaves the state cursor where it found it.
+                let child = ctx.program.functions.get_mut(c_idx.0 as usize).unwrap();
+                if let StateTreeSkeleton::FnCall(child) = &mut child.state_skeleton {
+                    *child = states.clone().into_iter().map(Box::new).collect();
+                }
+                let push_sum = ctx.get_ctxdata().push_sum;
+                if push_sum > 0 {
+                    ctx.get_current_basicblock().0.push((
+                        Arc::new(mir::Value::None),
+                        Instruction::PopStateOffset(push_sum),
+                    ));
+                }
                 let _v = ctx.push_inst(Instruction::Return(v, ty));
                 let f = Arc::new(Value::Function(c_idx.0 as usize));
                 (f, ty, states)
@@ -973,8 +990,13 @@ impl Context {
             });
 
         default_arg_data.map(|default_arg_data| {
-            let fid = self.push_inst(Instruction::Uinteger(default_arg_data.fid.0));
-            self.push_inst(Instruction::Call(fid, vec![], default_arg_data.ty))
+            // A stateful getter gets a cell of its own at this call site; the enclosing
+            // call (the Apply arm of eval_expr) lists it between the cells of the explicit
+            // arguments and those of the callee.
+            let (res, states) =
+                self.emit_fncall(default_arg_data.fid.0, vec![], default_arg_data.ty);
+            self.default_arg_states.extend(states);
+            res
         })
     }
     fn lookup(&self, key: &Symbol) -> LookupRes<VPtr> {
@@ -2730,12 +2752,13 @@ impl Context {
                     monomorphized_rt = Self::substitute_failure_type(monomorphized_rt, atvvec[0].1);
                 }
 
+                let default_states = std::mem::take(&mut self.default_arg_states);
                 let (res, state) =
                     self.emit_call_to_value(&f_to_call, &raw_atvvec, &atvvec, monomorphized_rt);
                 (
                     res,
                     monomorphized_rt,
-                    [app_state, arg_states, state].concat(),
+                    [app_state, arg_states, default_states, state].concat(),
                 )
             }
 
